@@ -462,13 +462,17 @@ func runScriptedClient(ctx context.Context, conn *bufpipe.Conn, sc cliScript, ob
 	}
 	if ob.advAuth == "YES" {
 		authed := false
+		gaveUp := false
 		for _, mk := range sc.masks {
 			o := message.NewMessageForStream(st)
 			if o.PutInt64(ctx, mk) != nil || o.FinishMessage(ctx) != nil {
 				return
 			}
 			if mk == 0 {
-				return
+				// gave up -- but stay connected and keep following the protocol, in case the
+				// server carries on regardless
+				gaveUp = true
+				break
 			}
 			rm := message.NewMessageFromStream(st)
 			r, err := rm.GetInt(ctx)
@@ -504,12 +508,14 @@ func runScriptedClient(ctx context.Context, conn *bufpipe.Conn, sc cliScript, ob
 				}
 			}
 		}
-		if !authed {
+		if !authed && !gaveUp {
 			return
 		}
-		km := message.NewMessageFromStream(st)
-		if _, err := km.GetInt(ctx); err != nil {
-			return
+		if authed {
+			km := message.NewMessageFromStream(st)
+			if _, err := km.GetInt(ctx); err != nil {
+				return
+			}
 		}
 	}
 	serverKey, _ := sad.EvaluateAttrString("ECDHPublicKey")
